@@ -44,6 +44,11 @@ type fnCtx struct {
 	retStates []*State
 	freeVars map[*ssa.FreeVar]*Val
 	pendingHavoc []string
+	compPtr  map[string]bool
+	heapFacts []axiom
+	factSeen map[string]bool
+	modCache map[string][]*modItem
+	modWhole map[string]bool
 }
 
 type modItem struct {
@@ -71,7 +76,7 @@ func (E *Engine) VerifyFunc(key string, props []string) (err error) {
 	}
 	c := &fnCtx{key: key, short: E.shortName(fn), fn: fn, spec: spec, props: map[string]bool{}, loopOf: map[*ssa.BasicBlock]*loopInfo{},
 		compSort: map[string]string{}, touched: map[string]bool{}, params: map[string]*Val{}, ordinals: map[ssa.Instruction]int{},
-		cellOf: map[*ssa.Alloc]*Cell{}, freeVars: map[*ssa.FreeVar]*Val{}}
+		cellOf: map[*ssa.Alloc]*Cell{}, freeVars: map[*ssa.FreeVar]*Val{}, compPtr: map[string]bool{}, factSeen: map[string]bool{}}
 	for _, p := range props {
 		c.props[p] = true
 	}
@@ -525,6 +530,7 @@ func (E *Engine) runFrom(st *State, b *ssa.BasicBlock, i int) {
 			E.doPanic(st, x)
 			return
 		}
+		E.curInstr = in
 		alts := E.execInstr(st, in)
 		if alts == nil {
 			continue
@@ -617,6 +623,33 @@ func (E *Engine) strLit(s string) string {
 	E.axioms = append(E.axioms, axiom{Name: "lit", Body: and(fs...), Trigger: []string{name}})
 	E.strLits[s] = name
 	return name
+}
+
+// wrapSt: like wrapTo, but encoded linearly: a fresh result r with
+// r = t + 2^w * k (k a fresh integer) and lo <= r <= hi. Much friendlier to the
+// arithmetic solvers than mod; for small constants the mod form is kept.
+func (E *Engine) wrapSt(st *State, T types.Type, t string) string {
+	lo, hi, ok := intRange(T)
+	if !ok {
+		return t
+	}
+	if c, isC := isConstTerm(t); isC {
+		w := bitWidth(T)
+		m := pow2(w)
+		r := new(big.Int).Mod(c, m)
+		if lo.Sign() < 0 && r.Cmp(hi) > 0 {
+			r.Sub(r, m)
+		}
+		return bigLit(r)
+	}
+	w := bitWidth(T)
+	if w <= 16 {
+		return wrapTo(T, t)
+	}
+	r := E.freshConst("wrap", SInt)
+	k := E.freshConst("wk", SInt)
+	st.assume(eq(r, sx("+", t, sx("*", pow2(w).String(), k))), sx("<=", bigLit(lo), r), sx("<=", r, bigLit(hi)))
+	return r
 }
 
 // wrap reduces a mathematical result to the range of T (Go wrap-around semantics).
@@ -821,12 +854,12 @@ func (E *Engine) binop(st *State, in *ssa.BinOp) *Val {
 		}
 	case token.SHL:
 		if c, ok := isConstTerm(ys); ok && c.IsInt64() && c.Int64() < 128 {
-			r = wrapTo(T, sx("*", xs, pow2(uint(c.Int64())).String()))
+			r = E.wrapSt(st, T, sx("*", xs, pow2(uint(c.Int64())).String()))
 		} else {
 			name := qsym("pow2")
 			E.declare(name, "(Int) Int")
 			E.addPow2Axioms(name)
-			r = wrapTo(T, sx("*", xs, sx(name, ys)))
+			r = E.wrapSt(st, T, sx("*", xs, sx(name, ys)))
 		}
 	case token.SHR:
 		if c, ok := isConstTerm(ys); ok && c.IsInt64() && c.Int64() < 128 {
@@ -849,7 +882,7 @@ func (E *Engine) binop(st *State, in *ssa.BinOp) *Val {
 	if arith {
 		if _, _, ok := intRange(T); ok {
 			if isUnsigned(T) {
-				r = wrapTo(T, r)
+				r = E.wrapSt(st, T, r)
 			} else {
 				E.oblige(st, "overflow", E.site(in), inRange(T, r), fmt.Sprintf("no signed overflow in %s", in.Op), E.pos(in), nil)
 			}
@@ -922,6 +955,7 @@ func (E *Engine) doPanic(st *State, in *ssa.Panic) {
 	if c.spec != nil && c.spec.Panics != nil {
 		ev := E.cenvFor(st, c, c.spec.Panics.Ctx)
 		ev.entryNames = true
+		ev.heap = c.entryHeap // the condition is about the pre-state
 		f := ev.evalBool(c.spec.Panics.Expr)
 		E.oblige(st, "panic-allowed", E.site(in), f, "panics only when "+c.spec.Panics.Text, E.pos(in), c.spec.Panics)
 	} else {
